@@ -9,7 +9,10 @@ was a DISCONNECT, bystanders stay alive, Server.Close returns, no goroutine of t
 namespace Mqtt.Spec.Lifecycle
 
 /-- causes of connection end the scenarios know -/
-def causes : List String := ["disconnect", "close", "protoerr", "oversize", "keepalive", "srvclose"]
+def causes : List String := ["disconnect", "close", "protoerr", "oversize", "keepalive", "srvclose", "halfclose"]
+-- "halfclose": the peer shuts down its sending direction only (TCP FIN) and neither reads nor closes.
+-- The broker has read end-of-stream: the connection has ended, and the property demands the same
+-- complete teardown as for a full close.
 
 /-- buffer conditions the scenarios know (`chunked`: a packet that needs the last read block of the
 ring arrives in pieces and is never completed; `chunkwhole`: it is completed and processed; `chunknear`: a
